@@ -20,6 +20,8 @@ def gen_args(tier, seed):
 def _harness_args(a, trace, only=None):
     if a.get("scenarios"):
         return ["scenarios", "-out", trace] + (["-only", only] if only else [])
+    if a.get("specreplay"):
+        return ["specreplay", "-in", a["behs"], "-out", trace]
     if a.get("liveness"):
         return ["liveness", "-out", trace, "-seed", a["seed"], "-runs", a["runs"], "-prefix", a["prefix"], "-nmax", a["nmax"]] + (
             ["-only", only] if only is not None else [])
@@ -106,7 +108,7 @@ def run_traces(tier, seed, only=None, args=None):
         shutil.rmtree(wd, ignore_errors=True)
 
 
-def judge(rep, pid, tier, seed, only=None, args=None, what="random adversarial schedules"):
+def judge(rep, pid, tier, seed, only=None, args=None, what="random adversarial schedules", behs=None):
     lines, bad, r, out, a = run_traces(tier, seed, only, args)
     idx = _runs_index(lines)
     rep.add_tlc(r, "Trace_Cluster over %d events of real nodes (%s)" % (len(lines), what))
@@ -116,7 +118,7 @@ def judge(rep, pid, tier, seed, only=None, args=None, what="random adversarial s
     prefix = pid.lower() + "_"
     kinds = collections.Counter()
     for e in lines:
-        if e.get("ev") not in ("init", "stable", "liveness_verdict"):
+        if e.get("ev") not in ("init", "stable", "liveness_verdict", "specreplay_abort"):
             kinds[(e["ev"], e.get("msg", {}).get("k"), e.get("tmpl", ""))] += 1
             rep.distinct.add((e["ev"], e.get("msg", {}).get("k"), e.get("tmpl", ""), e["post"]["view"], e["post"]["prepared"], len(e.get("sent", []))))
     rep.extra["event_classes"] = len(kinds)
@@ -157,7 +159,11 @@ def judge(rep, pid, tier, seed, only=None, args=None, what="random adversarial s
             seen.add(key)
             run, lin = idx[l]
             label = [x for x in lines[:l] if x.get("ev") == "init"][-1].get("label", "")
-            if a.get("scenarios"):
+            if a.get("specreplay"):
+                path = rep.replay_of or vlib.save_replay(pid, "specreplay_seed%d_behaviour%d_line%d" % (a["seed"], run, lin),
+                                                         {"property": pid, "kind": "spec-replay", "behaviour": behs[run] if behs else None, "line_in_run": lin,
+                                                          "failed": sig, "event": describe(e)})
+            elif a.get("scenarios"):
                 path = rep.replay_of or vlib.save_replay(pid, "scenario_%s_line%d" % (label, lin),
                                                          {"property": pid, "kind": "cluster-run", "args": a, "run": label, "line_in_run": lin,
                                                           "failed": sig, "event": describe(e)})
@@ -172,6 +178,10 @@ def judge(rep, pid, tier, seed, only=None, args=None, what="random adversarial s
 
 def replay(rep, payload, seed):
     pid = payload["property"]
+    if payload.get("kind") == "spec-replay":
+        from props import specreplay
+        specreplay.judge(rep, pid, "quick", seed, inline=[payload["behaviour"]])
+        return
     judge(rep, pid, "quick", payload["args"]["seed"], only=payload["run"], args=payload["args"], what="replay of run %s" % payload["run"])
 
 
@@ -186,6 +196,9 @@ def simple_check(pid, tier, seed, extra=None):
     rep.assumptions = list(ASSUME)
     judge(rep, pid, tier, 0, args={"scenarios": True, "seed": 0}, what="directed schedules (attack library)")
     judge(rep, pid, tier, seed)
+    if pid in ("C01", "C04", "C07", "C08", "C10"):
+        from props import specreplay
+        specreplay.judge(rep, pid, tier, seed)
     if extra:
         extra(rep, tier, seed)
     return rep.finish()
